@@ -155,6 +155,7 @@ impl Property<'_> {
             | Property::SharedSubscriptionAvailable(value) => *value <= 1,
             Property::MaximumQoS(value) => *value <= 2,
             Property::SubscriptionIdentifier(value) => (1..=MQTT_VARINT_MAX).contains(value),
+            Property::TopicAlias(value) => *value != 0,
             _ => true,
         }
     }
